@@ -174,7 +174,8 @@ fn parse_string(input: &str, span: Span) -> Result<String, Error> {
             }
             b'u' => {
                 if let Some(end_brace) = rem.bytes().position(|b| b == b'}') {
-                    let c: char = u32::from_str_radix(&rem[1..end_brace], 16)
+                    // rustc allows `_` separators in unicode escapes
+                    let c: char = u32::from_str_radix(&rem[1..end_brace].replace('_', ""), 16)
                         .ok()
                         .and_then(std::char::from_u32)
                         .ok_or_else(|| {
